@@ -49,6 +49,7 @@ CATALOGUE = [
     ("wrap-position-len", "C02", "_wrap.py", "line_position = _cell_len(word)\n        else:", "line_position = len(word)\n        else:"),
     ("truncate-ellipsis-width", "C01", "text.py", "self.plain = set_cell_size(self.plain, max_width - 1) + \"…\"", "self.plain = set_cell_size(self.plain, max_width) + \"…\""),
     # ---- C03
+    ("apply-style-strips-control-segment-styles", "C03", "segment.py", "                cls(text, _style if is_control else apply(_style), is_control)", "                cls(text, None if is_control else apply(_style), is_control)"),
     ("no-reset-code", "C03", "style.py", "rendered = f\"\\x1b[{attrs}m{text}\\x1b[0m\" if attrs else text", "rendered = f\"\\x1b[{attrs}m{text}\\x1b[0m\" if attrs and self._color else (f\"\\x1b[{attrs}m{text}\" if attrs else text)"),
     ("link-not-closed-on-legacy-flag", "C03", "style.py", "if self._link and not legacy_windows:", "if self._link:"),
     ("ansi-cache-ignores-system", "C03", "style.py", "if self._ansi is None or self._ansi[0] != color_system:", "if self._ansi is None:"),
